@@ -33,6 +33,7 @@ def run(res):
     for p in procs:
         o, e = p.communicate(timeout=3000)
         if p.returncode != 0:
+            raise_impl_panic(["determinism", res.tier, res.seed], p.returncode, e)
             raise Infra("determinism harness failed: " + e.decode("utf8", "replace")[-2000:])
         outs.append(o.decode("utf8").split("\n"))
     found = False
